@@ -117,6 +117,8 @@ def wrap(vals, vdt, kind, chunks=None, name=None, index=None):
         return arr.dictionary_encode(), []
     if kind in ("pd_series_arrow", "pd_series_arrow_chunked"):
         return pd.Series(pd.arrays.ArrowExtensionArray(arr if isinstance(arr, pa.ChunkedArray) else pa.chunked_array([arr])), name=name), []
+    if kind == "pd_index_arrow":
+        return pd.Index(pd.arrays.ArrowExtensionArray(arr if isinstance(arr, pa.ChunkedArray) else pa.chunked_array([arr])), name=name), []
     if kind == "pl_series":
         return pl.Series(name or "", arr), []
     raise ValueError(kind)
